@@ -46,6 +46,7 @@ def run(ck, F, tier):
     ck.rule("H1", "header <-> exports agreement")
     ck.rule("H2", "wrapper wiring")
     ck.rule("H4", "argument fidelity: each constructor hands the caller's C strings to the parsers unchanged (only lossless/lossy-UTF-8 conversions on the way), so what the parsers reject the constructor rejects")
+    ck.rule("H6", "malformed alist text gives null, not a panic across the C boundary: SparseMatrix::from_alist is total (the rule C08-P1, run here)")
     ck.rule("H5", "the encoder constructors refuse singular last columns: the row operations and the pivot range of linalg::gauss_reduction, on which Encoder::from_h's error rests (the rule C02-S5, run here)")
     ck.rule("H3", "constructors: null on error, no panics on malformed input")
     hdr = os.path.join(REPO, "include", "ldpc_toolbox.h")
@@ -334,6 +335,8 @@ def run(ck, F, tier):
     from ..report import RuleAlias
     from ..linalg_rules import row_operation_width
     row_operation_width(RuleAlias(ck, "H5"), F, "S5", "linalg::gauss_reduction")
+    from . import c08
+    c08.run(RuleAlias(ck, "H6", only=lambda r_, k_: r_ == "P1"), F, "quick")
     pattern_non_empty(ck, F, "H3")
     argument_fidelity(ck, F, exports)
 
